@@ -101,6 +101,24 @@ func c17Features() []c17Feature {
 			c17AddParam(c17Op(d, "post"), m("name", "b", "in", "body", "required", req, "schema", m("$ref", "#/definitions/D")))
 		})
 	}
+	add("body inline schema with x-nullable property", func(d map[string]any) {
+		c17AddParam(c17Op(d, "post"), m("name", "b", "in", "body", "required", true, "schema", m("type", "object", "properties", m("nick", m("type", "string", "x-nullable", true), "n", m("type", "integer")))))
+	})
+	add("body inline schema x-nullable itself with nested x-nullable items", func(d map[string]any) {
+		c17AddParam(c17Op(d, "post"), m("name", "b", "in", "body", "required", true, "schema", m("type", "object", "x-nullable", true, "properties", m("l", m("type", "array", "items", m("type", "string", "x-nullable", true))))))
+	})
+	for _, where := range []string{"operation", "document"} {
+		for _, list := range [][]any{l("application/json", "application/xml"), l("application/xml", "application/json", "text/plain")} {
+			where, list := where, list
+			add(fmt.Sprintf("consumes-list on the %s %s", where, CanonJSON(list)), func(d map[string]any) {
+				if where == "operation" {
+					c17Op(d, "post")["consumes"] = list
+				} else {
+					d["consumes"] = list
+				}
+			})
+		}
+	}
 	add("body array of refs", func(d map[string]any) {
 		c17AddParam(c17Op(d, "post"), m("name", "b", "in", "body", "required", true, "schema", m("type", "array", "items", m("$ref", "#/definitions/D"))))
 	})
@@ -290,6 +308,9 @@ func c17Slots(name string) []string {
 	case strings.HasPrefix(name, "body "), has("formData"), has("shared body"):
 		out = append(out, "post-input")
 	}
+	if has("formData") || strings.HasPrefix(name, "consumes-list") {
+		out = append(out, "consumes")
+	}
 	if strings.HasPrefix(name, "shared ") && !has("shared response") {
 		out = append(out, "parameters-map")
 	}
@@ -333,14 +354,14 @@ func init() {
 	var feats []c17Feature
 	core.Register(&core.Check{
 		ID: "C17",
-		Rule: "a Swagger 2.0 skeleton (host, basePath, scheme, one path with a path parameter and two operations, one definition) plus one feature (quick) or two features (thorough) out of ~330: every non-body parameter location x type x constraint field, body parameters (inline, $ref, array of refs), form parameters incl. file upload, shared parameters/responses incl. a shared parameter named like a definition, " +
+		Rule: "a Swagger 2.0 skeleton (host, basePath, scheme, one path with a path parameter and two operations, one definition) plus every combination of up to two (quick) or three (thorough) features out of ~340: every non-body parameter location x type x constraint field, body parameters (inline, $ref, array of refs), form parameters incl. file upload, shared parameters/responses incl. a shared parameter named like a definition, " +
 			"response schemas and headers with constraints, definitions with every constraint keyword, allOf, nesting, additionalProperties in its four forms, discriminator, x-nullable, self reference, host/basePath/schemes variants, basic/apiKey/four OAuth2 flows, operation and document security. " +
 			"Oracle: ToV3(d).Validate()==nil, NF(ToV3(d)) == NF(d), NF(FromV3(ToV3(d))) == NF(d), every $ref of the way-back document points at a Swagger 2.0 location. Under both map orders. non-trivial = a feature is applied",
 		Assumptions: []string{
 			"normal form mc/ref/apinf.go: paths, methods, operation ids, parameters by in:name with requiredness and schema constraints, body, form fields, responses with description/headers/schema, definitions, servers, security schemes; shared objects dereferenced, schema references by name",
 			"fields without a counterpart (collectionFormat vs style/explode, consumes/produces lists, allowEmptyValue) are outside the normal form; type:file equals string/binary; x-nullable equals nullable",
 		},
-		Bounds:        func(tier string) map[string]any { return map[string]any{"features": len(c17Features()), "features_per_document": map[string]int{"quick": 1, "thorough": 2}[tier]} },
+		Bounds:        func(tier string) map[string]any { return map[string]any{"features": len(c17Features()), "features_per_document": map[string]int{"quick": 2, "thorough": 3}[tier]} },
 		MinOutcomes:   1,
 		ShrinkVectors: true,
 		DevBound:      func(string) int { return 1 },
@@ -349,38 +370,47 @@ func init() {
 				feats = c17Features()
 			}
 			i := x.Choose(len(feats) + 1) // 0 = the bare skeleton
-			j := 0
-			if r.Tier == "thorough" {
-				// second feature with a smaller index; j == i stands for "none" as well, so that a pair can shrink onto either member
-				if j = x.Choose(len(feats) + 1); j > i {
+			// second (and, thorough, third) feature with a smaller index; an index equal to the previous one stands for "none" as well,
+			// so that a combination can shrink onto any of its members
+			j, k := 0, 0
+			if j = x.Choose(len(feats) + 1); j > i {
+				return
+			}
+			if j == i {
+				j = 0
+			}
+			if r.Tier == "thorough" && j > 0 {
+				if k = x.Choose(len(feats) + 1); k > j {
 					return
 				}
-				if j == i {
-					j = 0
+				if k == j {
+					k = 0
 				}
 			}
 			order := x.Deviate(2)
 			if !r.Own(x) {
 				return
 			}
-			if i > 0 && j > 0 {
-				for _, a := range c17Slots(feats[i-1].name) {
-					for _, b := range c17Slots(feats[j-1].name) {
-						if a == b {
-							return // the two features write the same part of the document
-						}
+			chosen := []int{}
+			for _, f := range []int{k, j, i} {
+				if f > 0 {
+					chosen = append(chosen, f-1)
+				}
+			}
+			used := map[string]bool{}
+			for _, f := range chosen {
+				for _, sl := range c17Slots(feats[f].name) {
+					if used[sl] {
+						return // two of the features write the same part of the document
 					}
+					used[sl] = true
 				}
 			}
 			d := c17Base()
 			var names []string
-			if j > 0 {
-				feats[j-1].apply(d)
-				names = append(names, feats[j-1].name)
-			}
-			if i > 0 {
-				feats[i-1].apply(d)
-				names = append(names, feats[i-1].name)
+			for _, f := range chosen {
+				feats[f].apply(d)
+				names = append(names, feats[f].name)
 			}
 			sig := "features=[" + strings.Join(names, " + ") + "]"
 			docJSON, _ := json.Marshal(d)
